@@ -399,6 +399,8 @@ const SINGLES: &[&str] = &[
     "256", "257", "263", "287", "294", "356", "516", "65535", "1000",
     // beyond the parser's saturation value (every one of these IS 65535, an unassigned code): 65536 + 0/1/3/31
     "65536", "65537", "65539", "65567", "99999999",
+    // heavy zero padding: the value is what counts, not the number of digits
+    "000001", "0000031", "00000000004", "0000000000000000000000107",
 ];
 
 /// one well-formed attribute group; returns (text, number of parameters)
@@ -490,7 +492,18 @@ pub fn gen_styled_text(r: &mut Rng, target: usize, xmlish: bool) -> Vec<u8> {
                     out.push(*r.pick(&[b'\n', b'\t', b'\r', b' ', b' ']));
                 }
             }
-            10..=15 => gen_sgr(r, &mut out),
+            10..=14 => gen_sgr(r, &mut out),
+            15 if r.chance(1, 3) => {
+                // a whitespace control INSIDE a sequence is executed (it is text) and the sequence goes on
+                let mut sq = Vec::new();
+                gen_sgr(r, &mut sq);
+                let at = r.range(2, sq.len() - 1);
+                out.extend_from_slice(&sq[..at]);
+                out.push(*r.pick(&[b'\n', b'\t', b'\r']));
+                out.extend_from_slice(&sq[at..]);
+                out.push(r.range(0x41, 0x5a) as u8);
+            }
+            15 => gen_sgr(r, &mut out),
             16 => gen_other_csi(r, &mut out),
             17 => gen_osc(r, &mut out, Flavor::Utf8),
             18 if r.chance(1, 3) => {
